@@ -3,6 +3,7 @@ the write discipline proved crash-safe in Crash_proofs.v and equal the model's
 own trace."""
 import generic
 import tracedriver
+import histdriver
 
 THDR = "From Whawty Require Import Names Record Store StoreSpec StoreTrace Crash."
 
@@ -12,13 +13,22 @@ def traces(prop, seed, tier):
     return tracedriver.gen_cases(prop, seed, tier, want_faults=True)
 
 
+def histories(prop, seed, tier):
+    # several operations on one directory, some failing half-way: what the following ones acknowledge must be durable
+    return histdriver.gen_hist_cases(prop, seed, tier)
+
+
 CONFIG = dict(
     rule="add / update / init / set-admin / remove (and the read-only calls) each run in a fresh process under strace on prepared stores "
          "(records without aux data, with 15 B, 5 KB without trailing LF, binary, 200 KB in the thorough tier; .tmp absent, present, with residue; empty directory); "
          "the calls between two marker stats are projected to create/mkdir/write/fsync/rename/unlink events on base, base/.tmp and their files; "
          "compared with the events of the model's program and fed to the verified checker protocol_complete_ok and durability_ok; "
-         "non-trivial = at least one mutation-relevant call; distinct = distinct case terms",
-    parts=[dict(pydrivers=[traces], run="C09", shard=30, header=THDR, case_type="tcase")],
+         "non-trivial = at least one mutation-relevant call; distinct = distinct case terms; (b) histories of 2-5 operations on ONE directory, each in a fresh process under strace, "
+         "with an I/O error injected into the open / fsync of the base directory, the rename or the last unlink of one or more steps (the caller's retry, the opposite operation, another operation on the same user, "
+         "operations on other users in between; random histories): every step against the model from the directory the previous step left, the whole history through DurHist.hist_ok "
+         "(dirty names carried from step to step; an acknowledged mutating operation must leave its user's names clean)",
+    parts=[dict(pydrivers=[traces], run="C09", shard=30, header=THDR, case_type="tcase"),
+           dict(pydrivers=[histories], run="C09h", shard=6, header=THDR + " From Whawty Require Import DurHist.", case_type="hcase")],
     trusted_extra=["strace 6.1 (system-call observation); lib/tracelib.py projection of strace output",
                    "the persistence model of Crash.v (atomic rename, fsync semantics, adversarial loss) is an assumption about kernel and file system"],
 )
